@@ -36,7 +36,7 @@ def run(ck):
                "between servermap update and retrieve) + 1..2 reads of a generated kind/range; distinct = (family, "
                "detail, format, k, N, sizes, read kind, range); non-trivial = something was damaged, substituted, "
                "forged or answered falsely")
-    counter = [ck.shard * 7, ck.shard * 3, ck.shard * 5, ck.shard]
+    counter = [ck.shard * 7, ck.shard * 3, ck.shard * 5, ck.shard, ck.shard]
     i = 0
     try:
         while not ck.out_of_time():
@@ -54,7 +54,7 @@ def run(ck):
                 h.close()
                 publish_mod.DEFAULT_MUTABLE_MAX_SEGMENT_SIZE = default_seg
                 publish_mod.os = real_os
-            if ck.tier == "quick" and ck.evaluations >= 700:
+            if ck.tier == "quick" and ck.evaluations >= 1100:
                 break
     finally:
         publish_mod.DEFAULT_MUTABLE_MAX_SEGMENT_SIZE = default_seg
@@ -66,7 +66,10 @@ def run(ck):
                      "resigned-share-not-delivered", "older-version-delivered", "newest-delivered",
                      "uncached-reader-read", "damage-between-mapupdate-and-retrieve", "sdmf", "mdmf",
                      "multi-segment-mdmf", "share-larger-than-mapupdate-read", "partial-read-ok",
-                     "sibling-cap-read-ok", "late-segment-read-succeeded-on-its-second-survey")
+                     "sibling-cap-read-ok", "late-segment-read-succeeded-on-its-second-survey",
+                     "directed:late-sibling-rehash", "directed:sig-multi", "directed:dup-primary",
+                     "directed:prefix-after-honest", "directed:sibling-cap", "directed:poison-chain",
+                     "directed:truncate-inside")
 
 
 def gen_params(rng, tier):
@@ -121,15 +124,41 @@ class History(object):
         self.p = gen_params(rng, ck.tier)
         self.directed = None
         if directed:
-            k, n = rng.choice([(1, 4), (2, 6), (1, 3), (3, 10), (2, 6)])
-            segsize = rng.choice([60, 100, 128, 250])
-            seg = (segsize + k - 1) // k * k
-            nver = rng.choice([1, 2, 2])
-            self.p = dict(fmt="MDMF", k=k, n=n, nservers=n + rng.choice([1, 2, 3]), segsize=segsize,
-                          sizes=[rng.randint(2, 7) * seg + rng.randint(1, seg - 1) for _ in range(nver)],
-                          profile=rng.choice(["fifo", "per-server-fifo", "free"]))
-            self.directed = ["late-segment", "late-segment", "sibling-cap", "late-segment", "poison-chain",
-                             "late-segment", "truncate-inside", "late-segment"]
+            shape = counter[4] % 4
+            counter[4] += 1
+            prof = rng.choice(["fifo", "per-server-fifo", "free"])
+            if shape == 0:
+                # several MDMF segments, more servers than 2k + k: intact shares can lie beyond a first bounded survey
+                k, n = rng.choice([(1, 4), (2, 6), (1, 3), (3, 10), (1, 4)])
+                segsize = rng.choice([60, 100, 128, 250])
+                seg = (segsize + k - 1) // k * k
+                self.p = dict(fmt="MDMF", k=k, n=n, nservers=n + rng.choice([1, 2, 3]), segsize=segsize,
+                              sizes=[rng.randint(2, 7) * seg + rng.randint(1, seg - 1) for _ in range(rng.choice([1, 2]))],
+                              profile=prof)
+                self.directed = ["late-segment", "late-sibling-rehash", "late-segment", "sibling-cap", "late-segment",
+                                 "late-sibling-rehash", "poison-chain", "late-segment"]
+            elif shape == 1:
+                # fewer servers than shares: every server holds several shares
+                k, n = rng.choice([(2, 4), (2, 6), (3, 6), (1, 4), (2, 8)])
+                self.p = dict(fmt=rng.choice(["SDMF", "MDMF"]), k=k, n=n, nservers=max(1, n // 2), segsize=rng.choice([60, 128]),
+                              sizes=[rng.randint(20, 500) for _ in range(rng.choice([1, 2]))], profile=prof)
+                self.directed = ["sig-multi", "sig-multi", "hdr-field", "sig-multi", "signature", "sig-multi", "crossfile",
+                                 "sig-multi"]
+            elif shape == 2:
+                # k >= 2: a second, damaged copy of a PRIMARY share (share number < k) on another server
+                k, n = rng.choice([(2, 4), (3, 5), (2, 3), (3, 10), (2, 6)])
+                self.p = dict(fmt=rng.choice(["SDMF", "MDMF"]), k=k, n=n, nservers=n + rng.choice([1, 2]),
+                              segsize=rng.choice([60, 128]), sizes=[rng.randint(40, 600) for _ in range(rng.choice([1, 2]))],
+                              profile=prof)
+                self.directed = ["dup-primary", "dup-primary", "dup-bad-copy", "dup-primary", "block", "dup-primary",
+                                 "dup-primary", "rehash-block"]
+            else:
+                # SDMF: a signed field other than seqnum / root hash edited in all shares but one or two
+                k, n = rng.choice([(1, 4), (2, 4), (2, 6), (3, 10), (1, 3)])
+                self.p = dict(fmt="SDMF", k=k, n=n, nservers=n + rng.choice([0, 1, 2]), segsize=128,
+                              sizes=[rng.randint(20, 600) for _ in range(rng.choice([1, 2]))], profile=prof)
+                self.directed = ["prefix-after-honest", "prefix-after-honest", "salt-iv", "prefix-after-honest",
+                                 "hdr-field", "prefix-after-honest", "resign", "prefix-after-honest"]
         self.g = None
 
     def close(self):
@@ -265,6 +294,8 @@ class History(object):
                 kind = rng.choice(["dbv-rw-fresh", "dbv-writer", "dbv-rw-fresh", "dbv-ro-fresh"])
             if fam == "sibling-cap":
                 kind = rng.choice(["dbv-ro-fresh", "dbv-ro-fresh", "version-read", "smap-dlv"])
+            if fam in ("late-sibling-rehash", "sig-multi", "dup-primary", "prefix-after-honest"):
+                kind = rng.choice(["dbv-ro-fresh", "dbv-rw-fresh", "dbv-rw-fresh", "dbv-writer"])
             if rng.random() < .15 and kind in ("version-read", "smap-dlv", "smap-copy-dlv"):
                 sub = rng.choice(["salt-iv", "crossversion", "block"])
                 between = lambda: self.apply(sub, dmg, sweep)   # noqa: E731
@@ -447,9 +478,77 @@ class History(object):
                 dmg.changed += 1
             dmg.note("block of segment %d flipped in every share except those on servers %s" % (seg, sorted(keep)))
             return
-        if fam == "dup-bad-copy":
+        if fam == "late-sibling-rehash":
+            # k = 1, several segments: share 0 is fine up to a later segment, where one block bit is flipped; share 1 (its
+            # sibling leaf: after share 0 was validated the share hash tree holds everything on share 1's path, so no
+            # chain is fetched for it) carries forged blocks under a consistently recomputed block hash tree
+            shares = {x[1]: x for x in M.disk_shares(g, self.si) if x[2].fmt is not None}
+            if self.k_newest != 1 or 0 not in shares or 1 not in shares or shares[0][2].num_segments() < 2:
+                raise Skip("needs k=1 and several segments")
+            nseg = shares[0][2].num_segments()
+            seg = rng.randrange(1, nseg)
+            ms0, ms1 = shares[0][2], shares[1][2]
+            _, (bs, be) = ms0.block_span(seg)
+            ms0.flip(bs + rng.randrange(be - bs), 1 << rng.randrange(8))
+            ms0.save()
+            for s_ in range(nseg):
+                _, (bs, be) = ms1.block_span(s_)
+                ms1.write_at(bs, rng.randbytes(be - bs))
+            if not M.rehash_blocks(ms1):
+                raise Skip("rehash")
+            ms1.save()
+            dmg.changed += 2
+            dmg.note("sh0 block of segment %d flipped; sh1 all blocks forged with a recomputed block hash tree" % seg)
+            return
+        if fam == "sig-multi":
+            # servers that hold several shares: on each of them all shares but one get a signed header field edited
+            # (found by the survey); the untouched ones are enough to read the file
+            by_server = {}
+            for x in M.disk_shares(g, self.si):
+                if x[2].fmt is not None:
+                    by_server.setdefault(x[0], []).append(x)
+            for idx, lst in sorted(by_server.items()):
+                if len(lst) < 2:
+                    continue
+                keep = rng.choice(lst)[1]
+                for (idx_, shnum, ms) in lst:
+                    if shnum == keep:
+                        continue
+                    name = rng.choice(["seqnum", "root_hash", "datalen"])
+                    if name == "root_hash":
+                        b = bytearray(ms.f["root_hash"])
+                        b[rng.randrange(32)] ^= 1 << rng.randrange(8)
+                        ms.set_field(name, bytes(b))
+                    else:
+                        ms.set_field(name, ms.f[name] + 1)
+                    ms.save()
+                    dmg.changed += 1
+            if not dmg.changed:
+                raise Skip("one share per server")
+            dmg.note("on every server all shares but one: signed header field edited")
+            return
+        if fam == "prefix-after-honest":
+            # SDMF: the IV (signed, but neither seqnum nor root hash) set to ff..ff in all shares but one or two: the
+            # edited shares claim the same (seqnum, root hash) as the honest ones that may be processed before them
+            shares = [x for x in M.disk_shares(g, self.si) if x[2].fmt == "SDMF"]
+            if len(shares) < 2:
+                raise Skip("needs SDMF with two shares")
+            honest = set(x[1] for x in rng.sample(shares, rng.choice([1, 1, 2]) if len(shares) > 2 else 1))
+            iv = rng.choice([b"\xff" * 16, b"\xff" * 15 + b"\xfe", bytes([255 - rng.randrange(3)]) + rng.randbytes(15)])
+            for (idx, shnum, ms) in shares:
+                if shnum in honest:
+                    continue
+                ms.set_field("IV", iv)
+                ms.save()
+                dmg.changed += 1
+            self.injected_ivs.add(iv)
+            dmg.note("IV replaced in every share but %s" % sorted(honest))
+            return
+        if fam in ("dup-bad-copy", "dup-primary"):
             # the same share number on two servers, one of the two copies damaged below the signed prefix
             shares = [x for x in M.disk_shares(g, self.si) if x[2].fmt is not None and x[2].num_segments() > 0]
+            if fam == "dup-primary":
+                shares = [x for x in shares if x[1] < self.k_newest]
             if not shares:
                 raise Skip("no shares")
             for (idx, shnum, ms) in rng.sample(shares, min(len(shares), rng.choice([1, 1, 2, len(shares)]))):
@@ -932,6 +1031,9 @@ class History(object):
                         ck.hit("uncached-reader-read")
                     status, res = g.wait(node.download_version(use, best), horizon=4 * 3600.0, max_steps=MAX_STEPS)
                     data = res if status == "ok" else None
+        if fam in ("late-sibling-rehash", "sig-multi", "dup-primary", "prefix-after-honest", "sibling-cap",
+                   "poison-chain", "truncate-inside") and dmg.changed and status in ("ok", "err"):
+            ck.hit("directed:" + fam)
         if fam == "late-segment" and status == "ok" and dmg.changed:
             per = {}
             for r_ in g.calls:
@@ -1011,7 +1113,7 @@ class History(object):
                     ck.skip("read-waits-for-a-server-that-never-answers")
                 else:
                     ck.violation("read-never-completes" + ("/bad-copy-of-a-duplicated-share-number-retried-forever"
-                                                           if fam == "dup-bad-copy" else ""),
+                                                           if fam in ("dup-bad-copy", "dup-primary") else ""),
                                  "%s neither succeeded nor failed (%s after %d scheduler steps)" % (kind, status, MAX_STEPS), w)
             elif which is not None and which != len(self.published) - 1 and not older:
                 ck.violation("stale-version-although-no-older-share-exists",
@@ -1022,7 +1124,7 @@ class History(object):
                 ck.skip("read-waits-for-a-server-that-never-answers")
             else:
                 ck.violation("read-never-completes" + ("/bad-copy-of-a-duplicated-share-number-retried-forever"
-                                                       if fam == "dup-bad-copy" else ""),
+                                                       if fam in ("dup-bad-copy", "dup-primary") else ""),
                              "%s neither succeeded nor failed (%s after %d scheduler steps)" % (kind, status, MAX_STEPS), w)
         if status not in ("ok", "err"):
             self.runaway = True      # something may still be looping inside the client: abandon this grid
@@ -1217,3 +1319,6 @@ class Skip(Exception):
 # holders of intact shares listed (=> coverage).
 #   seeded/C10-5 (retry appends to the first attempt's consumer)        caught  delivered-unpublished-bytes/late-segment  (family late-segment)
 #   seeded/C10-7 (node cache keyed by storage index, not by cap)          caught  delivered-unpublished-bytes/sibling-cap  (family sibling-cap)
+# Every fifth history is built for the mechanisms that need a particular file/grid shape (directed cases with required
+# reach counters 'directed:*'): late-segment, late-sibling-rehash (seeded C10-2), sig-multi (C10-6), dup-primary (C10-8),
+# prefix-after-honest (C10-1), sibling-cap (C10-7), poison-chain (C10-4), truncate-inside (C10-3).
